@@ -338,10 +338,25 @@ func (s *scope) setInstance(descriptor *Descriptor, key instanceKey, instance an
 	case Transient:
 		if d, ok := instance.(Disposable); ok {
 			s.disposablesMu.Lock()
-			s.disposables = append(s.disposables, d)
+			// Close leaves a nil list behind: an instance whose construction overlapped it would never be disposed
+			late := s.disposables == nil && atomic.LoadInt32(&s.disposed) != 0
+			if !late {
+				s.disposables = append(s.disposables, d)
+			}
 			s.disposablesMu.Unlock()
+
+			if late {
+				closeLate(d)
+			}
 		}
 	}
+}
+
+// closeLate disposes an instance that no Close of its owner will reach any more.
+// Its error, or a panic in it, has nowhere to be reported.
+func closeLate(d Disposable) {
+	defer func() { _ = recover() }()
+	_ = d.Close()
 }
 
 var (
